@@ -8,11 +8,22 @@
    with the patch tables libfive builds at start-up (Gen/MarchTables_gen.v, dumped from the
    implementation on every run): the soup is a disjoint union of directed cycles, for every
    filled / empty assignment of the lattice points.
-   Oracle-only part: grids with cells of different levels (merged cells), and that the loops
-   wind around the solid. *)
+   That the loops BOUND the solid and wind around it (Render/DCBoundary2.v), again on a uniform
+   grid and for every filled / empty assignment: one segment per sign-changing lattice edge,
+   joining the two cells adjacent to it; every lattice path from an inside to an outside point
+   crosses a segment of the soup (an odd number of them), closed paths cross evenly; every segment
+   is directed with the inside end of its lattice edge on its LEFT (counter-clockwise around
+   filled regions, clockwise around holes; x to the right, y upwards); a contour vertex that
+   lies in its own cell is within sqrt 2 * h of the zero set of any field continuous along
+   lattice edges with these corner signs.
+   Oracle-only part: grids with cells of different levels (merged cells).  On uniform grids
+   "the loops wind around the solid" is no longer oracle-only.  Not proved (and false in the
+   implementation, see the recorded finding): that the unclamped QEF vertex stays in its cell;
+   it is an explicit hypothesis of C10_contour_vertices_near_surface. *)
 From Coq Require Import List Arith Permutation.
-From Coq Require Import ZArith.
+From Coq Require Import ZArith Bool Reals.
 From LF Require Import Render.Contours Render.ContoursSem Gen.MarchTables_gen Render.DCGrid2 Render.DCGrid2Sem.
+From LF Require Import Render.DCBoundary2.
 Import ListNotations.
 
 (* nothing is lost, duplicated or invented: the consecutive pairs of the returned polylines
@@ -57,6 +68,120 @@ Proof. exact emission_then_welding_closed. Qed.
 Theorem C10_every_finite_solid_covered : forall F, covers2 (filled_in F) (edges_of F).
 Proof. exact covers2_edges_of. Qed.
 
+(* ------------------------------------------------------------------ *)
+(* the loops BOUND the solid (uniform grid)                             *)
+(* ------------------------------------------------------------------ *)
+Local Open Scope Z_scope.
+
+(* THE SEGMENTS ARE THE BOUNDARY EDGES.  A lattice edge (axis A in {1, 2}, start p) carries a segment
+   iff its ends differ in [ins], then exactly one; its two ends are vertices (cell, patch >= 0) of
+   the two distinct cells p - perp and p on either side of the edge, one each.  Hence the soup has
+   as many segments as E has sign-changing edges; [edges_of F] lists exactly those of a finite F. *)
+Theorem C10_segments_are_boundary_edges :
+  (forall ins A p, is_axis2 A = true ->
+     (emit2 ins A p <> [] <-> sign_change2 ins (A, p) = true) /\
+     length (emit2 ins A p) = (if sign_change2 ins (A, p) then 1 else 0)%nat /\
+     (forall s, In s (emit2 ins A p) ->
+        emit2 ins A p = [s] /\
+        ((fst (fst s) = psub2 p (bits2 (3 - A)) /\ fst (snd s) = p) \/
+         (fst (fst s) = p /\ fst (snd s) = psub2 p (bits2 (3 - A)))) /\
+        psub2 p (bits2 (3 - A)) <> p /\ 0 <= snd (fst s) /\ 0 <= snd (snd s))) /\
+  (forall ins E, (forall e, In e E -> is_axis2 (fst e) = true) ->
+     length (contour_soup ins E) = length (filter (sign_change2 ins) E)) /\
+  (forall ins E, covers2 ins E -> (forall e, In e E -> sign_change2 ins e = true) ->
+     length (contour_soup ins E) = length E) /\
+  (forall F A p, is_axis2 A = true ->
+     (In (A, p) (edges_of F) <-> sign_change2 (filled_in F) (A, p) = true)) /\
+  (forall F, length (contour_soup (filled_in F) (edges_of F)) = length (edges_of F)).
+Proof. exact segments_are_boundary_edges. Qed.
+
+(* DISCRETE SEPARATION.  Along a lattice path (unit steps along the axes from p) the steps whose ends
+   differ in [ins] are the steps that run through an emitted segment; their number is odd iff the
+   two ends of the path differ in [ins]: inside -> outside crosses at least once, closed paths
+   evenly.  With [covers2] a separating segment is in the soup. *)
+Theorem C10_contours_separate_inside_from_outside :
+  (forall ins p l, valid_path2 l ->
+     crossings2 ins p l = segs_crossed ins p l /\
+     Nat.odd (segs_crossed ins p l) = xorb (ins p) (ins (path_end2 p l)) /\
+     (ins p = true -> ins (path_end2 p l) = false -> (1 <= segs_crossed ins p l)%nat) /\
+     (path_end2 p l = p -> Nat.even (segs_crossed ins p l) = true)) /\
+  (forall ins E p l, covers2 ins E -> valid_path2 l -> ins p <> ins (path_end2 p l) ->
+     exists e s, In e (path_edges2 p l) /\ In e E /\ sign_change2 ins e = true /\
+                 emit2 ins (fst e) (snd e) = [s] /\ In s (contour_soup ins E)).
+Proof. exact contours_separate. Qed.
+
+(* ORIENTATION.  [seg_dir s] = o_to - o_from on cell origins; n = the unit vector from the OUTSIDE end
+   of the lattice edge to its INSIDE end.  Always seg_dir s = rot_cw n and (seg_dir s) x n = +1:
+   the solid is on the LEFT of the direction of travel, for both axes and both sign configurations,
+   for every segment of every soup.  libfive's contours are counter-clockwise around filled regions. *)
+Theorem C10_contours_wind_consistently :
+  (forall ins A p s, is_axis2 A = true -> In s (emit2 ins A p) ->
+     (ins p = true /\ ins (padd2 p (bits2 A)) = false /\
+      seg_dir s = rot_cw (pneg2 (bits2 A)) /\ cross2 (seg_dir s) (pneg2 (bits2 A)) = 1) \/
+     (ins p = false /\ ins (padd2 p (bits2 A)) = true /\
+      seg_dir s = rot_cw (bits2 A) /\ cross2 (seg_dir s) (bits2 A) = 1)) /\
+  (forall ins A p s, is_axis2 A = true -> In s (emit2 ins A p) ->
+     cross2 (seg_dir s) (psub2 (dbl (inside_pt ins A p)) (centre2x (fst (fst s)))) = 1 /\
+     cross2 (seg_dir s) (psub2 (dbl (outside_pt ins A p)) (centre2x (fst (fst s)))) = -1) /\
+  (forall ins E s, (forall e, In e E -> is_axis2 (fst e) = true) -> In s (contour_soup ins E) ->
+     exists A p, In (A, p) E /\ sign_change2 ins (A, p) = true /\ emit2 ins A p = [s] /\
+                 ins (inside_pt ins A p) = true /\ ins (outside_pt ins A p) = false /\
+                 psub2 (inside_pt ins A p) (outside_pt ins A p) = inward ins A p /\
+                 seg_dir s = rot_cw (inward ins A p) /\
+                 cross2 (seg_dir s) (inward ins A p) = 1).
+Proof.
+  split; [exact contours_orientation | split; [exact inside_left_outside_right | exact contours_wind_consistently]].
+Qed.
+
+(* COMPUTED EXAMPLES.  2 x 2 block + two points: 16 boundary edges, 16 segments; the mask-9 saddle: 8.
+   Paths with 1, 2 and (closed) 4 crossings.  Every segment of the saddles, the block and a ring
+   (solid with a hole) has the solid on its left; signed areas: positive, the hole's loop negative. *)
+Theorem C10_boundary_examples :
+  (length (edges_of F_block) = 16%nat /\ length (soup_of F_block) = 16%nat) /\
+  (mask2 (filled_in F_saddle) (0, 0) = 9 /\ length (soup_of F_saddle) = 8%nat) /\
+  (valid_path2 out_path2 /\ filled_in F_block (0, 0) = true /\
+   filled_in F_block (path_end2 (0, 0) out_path2) = false /\
+   segs_crossed (filled_in F_block) (0, 0) out_path2 = 1%nat) /\
+  (valid_path2 saddle_loop /\ path_end2 (0, 0) saddle_loop = (0, 0) /\
+   segs_crossed (filled_in F_saddle) (0, 0) saddle_path = 2%nat /\
+   segs_crossed (filled_in F_saddle) (0, 0) saddle_loop = 4%nat) /\
+  (wind_ok (filled_in F_saddle) (edges_of F_saddle) = true /\
+   wind_ok (filled_in F_saddle') (edges_of F_saddle') = true /\
+   wind_ok (filled_in F_block) (edges_of F_block) = true /\
+   wind_ok (filled_in F_ring) (edges_of F_ring) = true) /\
+  (shoelace (soup_of F_point) = 2 /\ shoelace (soup_of F_block) = 12 /\
+   shoelace (soup_of F_ring) = 16 /\
+   shoelace (contour_soup (filled_in F_ring) (incident (1, 1))) = -2).
+Proof. exact boundary2_examples. Qed.
+
+Local Open Scope R_scope.
+
+(* NEAR THE CURVE.  pos2 h og p = og + h p; f continuous along lattice edges, f < 0 at filled and
+   0 < f at empty lattice points.  A sign-changing edge contains a zero of f, which lies in both
+   cells adjacent to the edge; a contour vertex that lies in its own cell (HYPOTHESIS, not a
+   property of the unclamped 2D QEF solve) is within sqrt 2 * h of such a zero.  Non-vacuous:
+   the disc of radius 1/2 on the unit grid. *)
+Theorem C10_contour_vertices_near_surface :
+  (forall ins (f : R2 -> R) h og A p,
+     0 <= h -> is_axis2 A = true -> edge_continuous2 f h og A p ->
+     sign_at2 ins f h og p -> sign_at2 ins f h og (padd2 p (bits2 A)) ->
+     emit2 ins A p <> [] ->
+     exists z, f z = 0 /\ (exists t, 0 <= t <= 1 /\ z = edge_pt2 h og A p t) /\
+               forall v, In v (soup_verts (emit2 ins A p)) -> in_cell2 h og (fst v) z) /\
+  (forall h og c x y, 0 <= h -> in_cell2 h og c x -> in_cell2 h og c y -> dist2 x y <= sqrt 2 * h) /\
+  (forall ins (f : R2 -> R) h og E (vpos : vertex2 -> R2),
+     0 <= h -> (forall e, In e E -> is_axis2 (fst e) = true) ->
+     (forall A p, is_axis2 A = true -> edge_continuous2 f h og A p) ->
+     (forall p, sign_at2 ins f h og p) ->
+     forall v, In v (soup_verts (contour_soup ins E)) -> in_cell2 h og (fst v) (vpos v) ->
+       exists z, f z = 0 /\ in_cell2 h og (fst v) z /\ dist2 (vpos v) z <= sqrt 2 * h) /\
+  (forall v, In v (soup_verts (contour_soup (filled_in F_point) (edges_of F_point))) ->
+     exists z, disc_f z = 0 /\ in_cell2 1 O2R (fst v) z /\ dist2 (centre2 (fst v)) z <= sqrt 2).
+Proof.
+  split; [exact seg_cells_meet_curve | split; [exact cell_diameter2 |
+          split; [exact contour_vertices_near_curve | exact disc_example]]].
+Qed.
+
 Print Assumptions C10_segments_preserved.
 Print Assumptions C10_polylines_are_paths.
 Print Assumptions C10_loops_are_closed.
@@ -64,3 +189,8 @@ Print Assumptions C10_loops_hypothesis_tight.
 Print Assumptions C10_emission_gives_cycles.
 Print Assumptions C10_uniform_grid_contours_closed.
 Print Assumptions C10_every_finite_solid_covered.
+Print Assumptions C10_segments_are_boundary_edges.
+Print Assumptions C10_contours_separate_inside_from_outside.
+Print Assumptions C10_contours_wind_consistently.
+Print Assumptions C10_boundary_examples.
+Print Assumptions C10_contour_vertices_near_surface.
